@@ -28,6 +28,8 @@ THEOREMS = [
     "TornadoModel.C14.message_intact",
     "TornadoModel.C14.messages_intact",
     "TornadoModel.C14.messages_intact_bytes",
+    "TornadoModel.C14.segmentation_independent",
+    "TornadoModel.C14.segmentations_agree",
 ]
 TRUSTED = [
     "zlib: the (compress, decompress) pair is a parameter with the contract Spec.Codec (decompress after compress "
@@ -53,11 +55,13 @@ CLAUSES = {
     "same messages in the same order": "messages_intact (frames) + messages_intact_bytes (wire bytes)",
     "any permessage-deflate configuration": "messages_intact under the contract Spec.Codec; zlib parameters: tie only",
     "fragmented messages with interleaved control frames": "messages_intact (every chunking, every ping/pong list before every fragment) + control_frames_transparent",
-    "any TCP segmentation": "tie only: every script is fed under several segmentations (runBytes is defined on the reassembled stream; C11 gives read_bytes exactness)",
+    "any TCP segmentation": "segmentation_independent + segmentations_agree (the receive loop fed segment by segment, pending bytes of an "
+        "incomplete frame kept, = the loop on the reassembled stream, for every split); that IOStream.read_bytes hands over exactly "
+        "the next n bytes is C11, and every script is also fed to the real receiver under several segmentations",
 }
 PARALLEL = False     # 850 cases take ~5 s sequentially; the fork pool was slower than that on a loaded machine
 CASE_TIMEOUT = 60
-LEVEL_NOTE = "frame codec and receive machine proved for all inputs; zlib and TCP segmentation by correspondence"
+LEVEL_NOTE = "frame codec, receive machine and TCP-segmentation independence of the receive loop proved for all inputs; zlib by correspondence"
 TECHNIQUE = "Lean 4 model of _write_frame/_receive_frame/_handle_message + correspondence against real protocol objects over a fake transport"
 
 LENS = [0, 1, 2, 5, 124, 125, 126, 127, 128, 300, 4000]
